@@ -103,4 +103,4 @@ class C40(vlib.Spec):
 def main(ctx):
     spec = C40()
     spec.ctx = ctx
-    proto.standard_check_explained(ctx, spec)
+    vlib.standard_check(ctx, spec)
